@@ -90,6 +90,10 @@ pub enum SpecKind {
     Dyn,
     /// the `easy_ebml!`-generated `StaticSpec`; `elems` mirrors it (checked at start-up)
     Static,
+    /// a second derive-generated specification with the shapes the first lacks: declared global elements and a
+    /// global master (which may contain itself), placeholders behind ids and with bounds, 1- and 8-byte ids,
+    /// several roots, a root that is not a master
+    Static2,
 }
 
 #[derive(Clone, Debug, PartialEq, Eq)]
@@ -126,7 +130,7 @@ impl SpecTable {
 
     pub fn to_j(&self) -> J {
         json!({
-            "kind": match self.kind { SpecKind::Dyn => "dyn", SpecKind::Static => "static" },
+            "kind": match self.kind { SpecKind::Dyn => "dyn", SpecKind::Static => "static", SpecKind::Static2 => "static2" },
             "elems": self.elems.iter().map(|e| json!({
                 "id": format!("{:x}", e.id),
                 "ty": e.ty.name(),
@@ -142,6 +146,7 @@ impl SpecTable {
         let kind = match j.get("kind").and_then(|k| k.as_str()) {
             Some("dyn") => SpecKind::Dyn,
             Some("static") => SpecKind::Static,
+            Some("static2") => SpecKind::Static2,
             _ => return Err("spec.kind".into()),
         };
         let mut elems = Vec::new();
@@ -368,6 +373,59 @@ easy_ebml! {
     }
 }
 
+easy_ebml! {
+    #[derive(Clone, Debug, PartialEq)]
+    pub enum StaticSpec2 {
+        Doc: Master = 0x81,
+        Doc/Count: UnsignedInt = 0x82,
+        Doc/Delta: Integer = 0x83,
+        Doc/Ratio: Float = 0x84,
+        Doc/Name: Utf8 = 0x4001,
+        Doc/Body: Master = 0x4002,
+        Doc/Body/Blob: Binary = 0x200003,
+        Doc/Body/Part: Master = 0x10000004,
+        Doc/Body/Part/Piece: Binary = 0x0800000005,
+        Doc/Body/Part/Long: UnsignedInt = 0x0100000000000006,
+        Doc/(-)/Folder: Master = 0x4007,
+        Doc/(1-2)/Note: Utf8 = 0x4008,
+        Doc/Body/(0-1)/Mark: UnsignedInt = 0x89,
+        (1-)/Stamp: Integer = 0x8a,
+        Other: Master = 0x8b,
+        Other/Item: Binary = 0x8c,
+        Loose: UnsignedInt = 0x8d,
+    }
+}
+
+pub fn static2_table() -> SpecTable {
+    use PathPart::{Global, Id};
+    let e = |id: u64, ty: Ty, path: Vec<PathPart>| ElemDef { id, ty, path };
+    let (doc, body, part) = (0x81u64, 0x4002u64, 0x10000004u64);
+    SpecTable {
+        kind: SpecKind::Static2,
+        elems: vec![
+            e(doc, Ty::Master, vec![]),
+            e(0x82, Ty::UInt, vec![Id(doc)]),
+            e(0x83, Ty::Int, vec![Id(doc)]),
+            e(0x84, Ty::Float, vec![Id(doc)]),
+            e(0x4001, Ty::Utf8, vec![Id(doc)]),
+            e(body, Ty::Master, vec![Id(doc)]),
+            e(0x200003, Ty::Bin, vec![Id(doc), Id(body)]),
+            e(part, Ty::Master, vec![Id(doc), Id(body)]),
+            e(0x0800000005, Ty::Bin, vec![Id(doc), Id(body), Id(part)]),
+            e(0x0100000000000006, Ty::UInt, vec![Id(doc), Id(body), Id(part)]),
+            e(0x4007, Ty::Master, vec![Id(doc), Global((None, None))]),
+            e(0x4008, Ty::Utf8, vec![Id(doc), Global((Some(1), Some(2)))]),
+            e(0x89, Ty::UInt, vec![Id(doc), Id(body), Global((Some(0), Some(1)))]),
+            e(0x8a, Ty::Int, vec![Global((Some(1), None))]),
+            e(0x8b, Ty::Master, vec![]),
+            e(0x8c, Ty::Bin, vec![Id(0x8b)]),
+            e(0x8d, Ty::UInt, vec![]),
+            e(CRC_ID, Ty::Bin, vec![Global((Some(1), None))]),
+            e(VOID_ID, Ty::Bin, vec![Global((None, None))]),
+        ],
+    }
+}
+
 pub fn static_table() -> SpecTable {
     use PathPart::Id;
     let e = |id: u64, ty: Ty, path: Vec<PathPart>| ElemDef { id, ty, path };
@@ -414,6 +472,19 @@ pub fn self_check() -> Result<(), String> {
     for probe in [0x80u64, 0x81, 0x4000, 0x1a45dfa4] {
         if StaticSpec::get_tag_data_type(probe).is_some() {
             return Err(format!("static spec mirror: {:x} should be unknown", probe));
+        }
+    }
+    for e in &static2_table().elems {
+        if StaticSpec2::get_tag_data_type(e.id) != Some(e.ty.to_lib()) {
+            return Err(format!("static spec 2 mirror: type of {:x}", e.id));
+        }
+        if StaticSpec2::get_path_by_id(e.id) != &e.path[..] {
+            return Err(format!("static spec 2 mirror: path of {:x}: {:?} vs {:?}", e.id, StaticSpec2::get_path_by_id(e.id), e.path));
+        }
+    }
+    for probe in [0x80u64, 0x8e, 0x4000, 0x4009] {
+        if StaticSpec2::get_tag_data_type(probe).is_some() {
+            return Err(format!("static spec 2 mirror: {:x} should be unknown", probe));
         }
     }
     let mut d = t.clone();
